@@ -461,6 +461,7 @@ def run(ctx):
     check_setup(ctx, repo)
     check_derived_names(ctx, repo)
     check_writer_exit(ctx, repo)
+    check_write_path_handlers(ctx, repo)
 
 
 def check_derived_names(ctx, repo):
@@ -502,6 +503,112 @@ def check_derived_names(ctx, repo):
                            f"the final rename replaces the input file",
                            node=js, label=f"derived name {short(js, 40)}")
     ctx.stat("R10.5 derived output names checked", n_checked)
+
+
+WRITE_PATH = ("dclab/rtdc_dataset/copier.py", "dclab/rtdc_dataset/writer.py",
+              "dclab/rtdc_dataset/export.py")
+_H5_WRITE_ATTRS = {"create_dataset", "create_group", "require_group",
+                   "require_dataset", "copy", "resize", "write_direct",
+                   "create_virtual_dataset", "flush"}
+_BROAD = ("Exception", "BaseException", "OSError", "IOError", "RuntimeError",
+          "KeyError", "ValueError", "TypeError")
+
+
+def _write_ops(stmts, local_arrays):
+    """operations in `stmts` that put data into an HDF5 object or go
+    through the writer: subscript stores into non-local containers, h5py
+    creation/copy calls, attrs stores, store_*/write_* calls, copier calls"""
+    out = []
+    for st in stmts:
+        for n in walk(st):
+            if isinstance(n, (ast.Assign, ast.AugAssign)):
+                tgts = n.targets if isinstance(n, ast.Assign) else [n.target]
+                for t in tgts:
+                    if isinstance(t, ast.Subscript):
+                        base = t.value
+                        while isinstance(base, (ast.Subscript, ast.Attribute)):
+                            if isinstance(base, ast.Attribute) \
+                                    and base.attr == "attrs":
+                                break
+                            base = base.value
+                        if isinstance(base, ast.Name) \
+                                and base.id in local_arrays:
+                            continue
+                        out.append(n)
+            elif isinstance(n, ast.Call):
+                a = last_attr(n)
+                nm = (call_name(n) or "").split(".")[-1]
+                if a in _H5_WRITE_ATTRS or (a or nm).startswith(
+                        ("store_", "write_")) or nm in (
+                        "rtdc_copy", "h5ds_copy", "basin_definition_copy",
+                        "store_filtered_feature"):
+                    out.append(n)
+    return out
+
+
+def _swallowing_handlers(tr):
+    out = []
+    for h in tr.handlers:
+        ht = txt(h.type) if h.type is not None else "<bare>"
+        broad = h.type is None or any(k in ht for k in _BROAD)
+        rer = any(isinstance(x, ast.Raise) for x in walk(
+            ast.Module(body=h.body, type_ignores=[])))
+        if broad and not rer:
+            out.append((h, ht))
+    return out
+
+
+def check_write_path_handlers(ctx, repo):
+    """R10.6 for the library functions that write on behalf of the tasks
+    (copier, writer, export): an exception handler around an operation that
+    writes to the destination must re-raise – otherwise the task finishes,
+    closes the temp file and renames an incomplete result."""
+    # positive control: the detector fires on a known-bad shape
+    ctl = ast.parse("def f(dst, src):\n    try:\n        dst[0] = src[0]\n"
+                    "    except OSError:\n        pass\n").body[0]
+    from ..core import link as _link
+    _link(ctl)
+    t0 = [n for n in walk(ctl) if isinstance(n, ast.Try)][0]
+    if not (_write_ops(t0.body, set()) and _swallowing_handlers(t0)):
+        raise AnalysisError("R10.6: write-path detector lost its positive "
+                            "control")
+    n_fun = n_try = 0
+    for rel in WRITE_PATH:
+        for q, f in repo.all_functions(rel):
+            n_fun += 1
+            local_arrays = set()
+            for n in walk(f):
+                if isinstance(n, ast.Assign) and len(n.targets) == 1 \
+                        and isinstance(n.targets[0], ast.Name) \
+                        and isinstance(n.value, (ast.Call, ast.List,
+                                                 ast.Dict, ast.ListComp)):
+                    cn = call_name(n.value) if isinstance(
+                        n.value, ast.Call) else "literal"
+                    if cn == "literal" or (cn or "").startswith(
+                            ("np.", "numpy.")) or cn in ("dict", "list",
+                                                         "set"):
+                        local_arrays.add(n.targets[0].id)
+            for tr in [n for n in walk(f) if isinstance(n, ast.Try)]:
+                ops = _write_ops(tr.body, local_arrays)
+                if not ops:
+                    continue
+                n_try += 1
+                sw = _swallowing_handlers(tr)
+                ctx.ob("R10.6", not sw,
+                       f"{q}: handlers around `{short(ops[0], 40)}` re-raise"
+                       if not sw else
+                       f"{q}: `except {sw[0][1]}` swallows errors of the "
+                       f"write `{short(ops[0], 50)}`: the task goes on, "
+                       f"closes the temp file and renames an incomplete "
+                       f"result to the output path",
+                       node=sw[0][0] if sw else tr,
+                       key=f"{rel}::{q}::write errors propagate "
+                           f"{short(ops[0], 40)}")
+    ctx.stat("R10.6 write-path functions scanned", n_fun)
+    ctx.stat("R10.6 write-path try blocks around writes", n_try)
+    if n_fun < 25:
+        raise AnalysisError(f"R10.6: only {n_fun} write-path functions "
+                            f"found")
 
 
 def check_writer_exit(ctx, repo):
@@ -689,6 +796,13 @@ def check_setup(ctx, repo):
 
 
 MUTANTS = [
+    ("chunk copy swallows write errors (seeded C10_9)",
+     "dclab/rtdc_dataset/copier.py",
+     ("                    dst[chunk] = src[chunk]\n",
+      "                    try:\n"
+      "                        dst[chunk] = src[chunk]\n"
+      "                    except OSError:\n"
+      "                        print('could not copy chunk')\n"), "R10.6"),
     ("compress writes to final path", "dclab/cli/task_compress.py",
      ('h5py.File(path_temp, "w") as hc', 'h5py.File(path_out, "w") as hc'),
      "R10.1"),
